@@ -19,6 +19,9 @@ func main() {
 		if f.Engine == "sched" {
 			os.Exit(replayRegSched(f))
 		}
+		if f.Engine == "hist" {
+			os.Exit(replayRegHist(f))
+		}
 		os.Exit(replayC17(f))
 	}
 	switch f.Engine {
@@ -26,6 +29,8 @@ func main() {
 		engineRegSched(f, res)
 	case "race":
 		engineRegRace(f, res)
+	case "hist":
+		engineRegHist(f, res)
 	default:
 		if !engineC17(f, res) {
 			rep.Fatal(f, "unknown engine %q", f.Engine)
